@@ -903,6 +903,29 @@ def weave_extract(ub, ex, rf, repo_root):
             rec['transformations'].append({'rule': 'E8', 'what': 'CUT: loop %r (%d source lines) replaced by `%s` (assumed contract)' % (
                 anchor, code.count('\n', pos, e) + 1, rep)})
             rec.setdefault('cuts', []).append({'loop': anchor, 'replacement': rep, 'lines': code.count('\n', pos, e) + 1})
+        elif name == 'shell':
+            # E14 (shell form): the BODY of a loop whose body is verified separately as a lifted function (E14, same unit or another) is
+            # replaced by a call to that function: the rest of the enclosing function - what surrounds the loop, what is done with what
+            # the loop builds - is then verified against the lifted function's CONTRACT (modular: the call site sees the contract only)
+            n, rest = parse_occ(args)
+            anchor = rest[0]
+            k = rest.index('=>')
+            rep = rest[k + 1]
+            pos = nth_occurrence(m, anchor, n, '%s shell loop header' % alias)
+            kk = pos
+            while kk < len(m):
+                if m[kk] in '([':
+                    kk = match_close(m, kk) + 1
+                    continue
+                if m[kk] == '{':
+                    break
+                kk += 1
+            else:
+                raise WeaveError('lost anchor: shell loop body %r in %s' % (anchor, alias))
+            e = match_close(m, kk)
+            edits.append(Edit(kk + 1, e, ' ' + rep + ' ', None))
+            rec['transformations'].append({'rule': 'E14', 'what': 'SHELL: body of loop %r (%d source lines, verified as a lifted function) replaced by the call `%s`: the enclosing function is verified against that function\'s contract' % (
+                anchor, code.count('\n', kk, e) + 1, rep)})
         elif name == 'rewrite':
             rule = args[0]
             k = args.index('=>')
@@ -932,7 +955,7 @@ def weave_extract(ub, ex, rf, repo_root):
       except WeaveError as e:
         # DESIGN section 8: an anchor lost because code was only DELETED (current token sequence is a subsequence of the
         # pinned one) does not stop the check: the annotation is dropped and verification is attempted with the rest
-        if deletion_only and str(e).startswith('lost anchor') and d[0] in ('insert', 'insert-each', 'loop', 'closure', 'cut', 'rewrite'):
+        if deletion_only and str(e).startswith('lost anchor') and d[0] in ('insert', 'insert-each', 'loop', 'closure', 'cut', 'rewrite', 'shell'):
             rec['lost_anchors'].append('%s: %s' % (d[0], e))
             continue
         # a lost anchor of a pure PROOF HINT (a closure conversion, or an inserted block that carries no labelled obligation and
